@@ -244,6 +244,13 @@ where
         });
     }
 
+    // The fixed columns are committed in the Lagrange basis of the parameters, which is the
+    // basis of the domain of size 2^k only if the parameters have exactly that size (larger
+    // parameters must be downsized first).
+    if params.max_k() != k {
+        return Err(Error::SrsError(params.max_k() as usize, k as usize));
+    }
+
     let (domain, cs, config) = create_domain::<F, ConcreteCircuit>(
         k,
         #[cfg(feature = "circuit-params")]
